@@ -191,7 +191,7 @@ API_COVERAGE = [
 def run(ctx, only=None):
     ctx.trusted += ['symbolic executor vlib/c09_sym.py (corresponded with the numerical lbasis by check C09)',
                     'certificate generators of vlib/c03_gen.py (psi, signs, induced permutations: re-checked inside Coq)',
-                    'ElementGlobal family (numerical Vandermonde inverse): Delaunay cells restricted to shape quality >= 0.45; InteriorFacetBasis / mapping.G / mapping.invF / mapping.normals of the library in the oracle (floats, tolerance '
+                    'ElementGlobal family (numerical Vandermonde inverse): Delaunay cells restricted to shape quality >= 0.45, final meshes to quality >= 0.36 and cell size >= 0.04 (float error grows like h^-5); InteriorFacetBasis / mapping.G / mapping.invF / mapping.normals of the library in the oracle (floats, tolerance '
                     f'{c03_oracle.TOL}, {c03_oracle.GLOBAL_TOL} for the ElementGlobal family)']
     ctx.assumptions += ['shared entity => shared global DOF number is C04; f2t lists exactly the cells of a facet is C11',
                         'the physical area-weighted normal of a mapped facet is |det| A^-T n (Nanson); not formalised',
